@@ -502,8 +502,9 @@ def main(tier, seed, pid):
         "oracle_failures": oracle_fail,
         "unproved_clauses": (["index = eager reader's ids/keywords, and load-order independence of the serialisation (tested)"]
                              if pid == "C10" else
-                             ["that lazyRefs implements resolve_inverse is validated on schemas/verif_inv.exp (three inverses on one "
-                              "entity, inherited inverses, aggregate and single-valued) and verif_all.exp only"]),
+                             ["that lazyRefs implements resolve_inverse is validated on schemas/verif_inv.exp (several inverses on one "
+                              "entity, inherited from a parent, a grandparent and a second supertype, aggregate and single-valued) and "
+                              "verif_all.exp only; referrers in external mapping and inverted attributes of a SELECT type are open findings"]),
     })
     res.assumptions = ["schema under test: schemas/verif_all.exp"]
     return res.finish()
